@@ -25,7 +25,8 @@ pub fn encode_ordered_value(v: &PropertyValue) -> Vec<u8> {
         PropertyValue::Float(f) => {
             let mut out = Vec::with_capacity(1 + 8);
             out.push(0x03);
-            let bits = f.to_bits();
+            // -0.0 == 0.0 must encode identically (equal values, equal keys).
+            let bits = if *f == 0.0 { 0.0f64.to_bits() } else { f.to_bits() };
             let sortable = if (bits & (1 << 63)) != 0 {
                 // Negative numbers sort before positives: invert all bits.
                 !bits
